@@ -99,6 +99,11 @@ pub fn stmt_src(kind: &str, i: usize) -> String {
         "var" => format!("var v{i}: i32 = 1;"),
         "call" => "f(1);".to_string(),
         "label" => "end:".to_string(),
+        // statements that carry node references of their own (Block.first, If.comparison, ThenElse.then)
+        "block" => format!("{{ var w{i}: i32 = 2; loop; }}"),
+        "if" => format!("if v{i} == {i} {{ goto end; }}"),
+        "ifelse" => format!("if v{i} != 0 goto end; else {{ f({i}); }}"),
+        "set" => format!("v{i} = v{i} + 1;"),
         other => format!("{other};"),
     }
 }
@@ -301,4 +306,309 @@ pub fn random_module(seed: u64, index: usize) -> Vec<Value> {
         decls.push(d);
     }
     decls
+}
+
+// ---------------------------------------------------------------------------------------------
+// xmod (dimension audit): the dimensions `random_module` does not vary.  A generator of its own, so that the
+// stream (and the recorded seeds) of `rmod` stay as they were.
+// ---------------------------------------------------------------------------------------------
+pub const XCLASSES: &[&str] = &[
+    "tiny",        // 0 or 1 declaration of every kind x pub / private
+    "thousand",    // 1000 small declarations, random visibility
+    "alternating", // pub / private alternating 500 times
+    "zones",       // one private zone at the very start / very end / covering everything / none at all
+    "hugeprivate", // private functions with thousands of statements before public declarations (skip counter > 2^16)
+    "hugepublic",  // public functions with thousands of statements between public declarations
+    "rich",        // values, types, names and list lengths outside the model-checked vocabulary
+    "flags",       // every combination of pub / extern / opaque on every kind of declaration
+    "refstmts",    // statements with node references (blocks, ifs) inside public and private bodies
+    "bigheader",   // 7000 public constants: the HEADER has more than 2^16 nodes (node numbers of the header cross 2^16)
+];
+
+const RICH_VALUES: &[&[&str]] = &[
+    &["\"a<b&c>d\""],
+    &["\"q\\\"q\""],
+    &["\"it's </Value> ]]>\""],
+    &["\"caf\u{e9}\""],
+    &["\"\u{20ac}\""],
+    &["\"one\" \"two\" \"three\""],
+    &["'<'"],
+    &["'&'"],
+    &["'\"'"],
+    &["'\\''"],
+    &["'\\\\'"],
+    &["[1, 2, 3]"],
+    &["[]"],
+    &["[[1, 2], [3, 4]]"],
+    &["cast x as u8"],
+    &["x as i64"],
+    &["S { a: 1, b: x }"],
+    &["f(1, x)"],
+    &["|x|"],
+    &["|:S|"],
+    &["&x"],
+    &["x.m"],
+    &["x[1].m"],
+    &["true"],
+    &["0xFFu8"],
+    &["340282366920938463463374607431768211455"],
+    &["+", "\"s\"", "'c'"],
+    &["*", "()", "+", "x", "1", "f(2)"],
+    &["neg", "x.m"],
+];
+const RICH_TYPES: &[&[&str]] = &[
+    &["i128"],
+    &["char8"],
+    &["[N]", "i32"],
+    &["&", "[]", "&", "[4]", "S"],
+    &["[4]", "[2]", "u8"],
+    &["&", "&", "&", "&", "S"],
+    &["[:]", "u8"],
+    &["[65536]", "u8"],
+];
+
+fn dflt(name: &str) -> Value {
+    json!({"k": "", "pub": false, "ext": false, "opq": false, "name": name, "params": [], "ret": [],
+           "ty": [], "val": [], "mem": [], "size": 0, "body": [], "res": []})
+}
+fn sv(x: &[&str]) -> Value {
+    json!(x.iter().map(|s| s.to_string()).collect::<Vec<_>>())
+}
+
+/// A small declaration of kind `kind` (0 fn, 1 head, 2 const, 3 struct, 4 word, 5 import).
+fn small_decl(rng: &mut Rng, kind: usize, name: &str, is_pub: bool) -> Value {
+    let mut d = dflt(name);
+    d["pub"] = json!(is_pub);
+    match kind {
+        0 | 1 => {
+            d["k"] = json!(if kind == 0 { "fn" } else { "head" });
+            d["params"] = pairs(rng, 2, "p");
+            if rng.chance(50) {
+                d["ret"] = ty(rng);
+            }
+            if kind == 0 {
+                d["body"] = json!((0..rng.below(3)).map(|_| rng.pick(STMTS).to_string()).collect::<Vec<_>>());
+                if d["ret"].as_array().map(|a| !a.is_empty()).unwrap_or(false) {
+                    d["res"] = sv(*rng.pick(VALUES));
+                }
+            }
+        }
+        2 => {
+            d["k"] = json!("const");
+            d["ty"] = ty(rng);
+            d["val"] = sv(*rng.pick(VALUES));
+        }
+        3 => {
+            d["k"] = json!("struct");
+            d["mem"] = pairs(rng, 3, "m");
+        }
+        4 => {
+            d["k"] = json!("word");
+            d["size"] = json!(*rng.pick(&[1u64, 2, 4, 8, 16]));
+            d["mem"] = pairs(rng, 2, "m");
+        }
+        _ => {
+            d["k"] = json!("import");
+            d["pub"] = json!(false);
+            d["name"] = json!(format!("{name}.pn"));
+        }
+    }
+    d
+}
+
+fn huge_fn(rng: &mut Rng, name: &str, is_pub: bool, stmts: usize, with_refs: bool) -> Value {
+    let mut d = dflt(name);
+    d["k"] = json!("fn");
+    d["pub"] = json!(is_pub);
+    d["params"] = pairs(rng, 3, "p");
+    const K: &[&str] = &["var", "call", "loop", "goto"];
+    const R: &[&str] = &["var", "block", "if", "ifelse", "set", "call", "goto"];
+    // `v<i>` is declared by the `var` statement with the same index; the parser does not care
+    d["body"] = json!((0..stmts).map(|_| if with_refs { rng.pick(R).to_string() } else { rng.pick(K).to_string() }).collect::<Vec<_>>());
+    if rng.chance(50) {
+        d["ret"] = ty(rng);
+        d["res"] = sv(*rng.pick(VALUES));
+    }
+    d
+}
+
+/// (module, class, big).  `big`: too large for the algorithm model in TLC -- validated at rule level only.
+pub fn extended_module(seed: u64, index: usize) -> (Vec<Value>, &'static str, bool) {
+    let mut rng = Rng::new(seed, 0xC17E_0000 + index as u64);
+    let class = XCLASSES[index % XCLASSES.len()];
+    let variant = index / XCLASSES.len();
+    let mut decls: Vec<Value> = Vec::new();
+    let mut big = false;
+    match class {
+        "tiny" => {
+            // variant 0: the empty module; then one declaration: kind x pub (12 shapes), repeated with other draws
+            if variant > 0 {
+                let v = variant - 1;
+                decls.push(small_decl(&mut rng, v % 6, "only", (v / 6) % 2 == 0));
+            }
+        }
+        "thousand" => {
+            big = true;
+            let pub_pct = *rng.pick(&[0usize, 10, 50, 90, 100]);
+            for i in 0..1000 {
+                let kind = rng.weighted(&[2, 30, 30, 15, 8, 8]);
+                let p = rng.chance(pub_pct);
+                decls.push(small_decl(&mut rng, kind, &format!("d{i}"), p));
+            }
+        }
+        "alternating" => {
+            big = true;
+            let phase = variant % 2;
+            for i in 0..1000 {
+                let kind = *rng.pick(&[1usize, 2, 3, 1, 2, 0]);
+                decls.push(small_decl(&mut rng, kind, &format!("d{i}"), i % 2 == phase));
+            }
+        }
+        "zones" => {
+            let n = rng.range(6, 60);
+            let k = rng.range(1, n - 1);
+            for i in 0..n {
+                let p = match variant % 4 {
+                    0 => i >= k,  // one private zone at the very start
+                    1 => i < k,   // one private zone (left open) at the very end
+                    2 => false,   // everything private
+                    _ => true,    // no private declaration at all
+                };
+                let kind = rng.weighted(&[20, 15, 20, 15, 8, if p { 0 } else { 8 }]);
+                decls.push(small_decl(&mut rng, kind, &format!("d{i}"), p));
+            }
+        }
+        "hugeprivate" | "hugepublic" => {
+            big = true;
+            let huge_pub = class == "hugepublic";
+            // ~4.5 nodes and ~4.3 tokens per statement: 5 x 4000 statements skip more than 2^16 nodes and push the
+            // tokens of what follows beyond 2^16 as well
+            let stmts = *rng.pick(&[4000usize, 4500, 5000]);
+            let n_huge = 5;
+            if rng.chance(50) {
+                decls.push(small_decl(&mut rng, 2, "before", true));
+            }
+            for h in 0..n_huge {
+                decls.push(huge_fn(&mut rng, &format!("huge{h}"), huge_pub, stmts, false));
+                // what follows a huge skipped region must have its references moved by more than 2^16
+                let kind = *rng.pick(&[0usize, 1, 2, 3, 4]);
+                decls.push(small_decl(&mut rng, kind, &format!("after{h}"), true));
+                if rng.chance(40) {
+                    decls.push(small_decl(&mut rng, 2, &format!("hidden{h}"), false));
+                }
+            }
+            let kind = *rng.pick(&[0usize, 2, 3]);
+            let last_pub = rng.chance(70);
+            decls.push(small_decl(&mut rng, kind, "last", last_pub));
+        }
+        "rich" => {
+            let n = rng.range(4, 24);
+            for i in 0..n {
+                let p = rng.chance(55);
+                let name = match rng.below(12) {
+                    0 => "n".repeat(*rng.pick(&[255usize, 256, 257, 1000])),
+                    1 => format!("{}_{i}", "long_name".repeat(40)),
+                    _ => format!("d{i}"),
+                };
+                let mut d = dflt(&name);
+                d["pub"] = json!(p);
+                match rng.below(5) {
+                    0 | 1 => {
+                        d["k"] = json!("const");
+                        d["ext"] = json!(rng.chance(15));
+                        d["ty"] = if rng.chance(50) { sv(*rng.pick(RICH_TYPES)) } else { ty(&mut rng) };
+                        d["val"] = sv(*rng.pick(RICH_VALUES));
+                    }
+                    2 => {
+                        d["k"] = json!(if rng.chance(50) { "fn" } else { "head" });
+                        d["ext"] = json!(rng.chance(15));
+                        let np = *rng.pick(&[0usize, 1, 2, 40, 255, 256, 257]);
+                        d["params"] = json!((0..np).map(|j| json!([format!("p{j}"), if rng.chance(30) { sv(*rng.pick(RICH_TYPES)) } else { ty(&mut rng) }])).collect::<Vec<_>>());
+                        if rng.chance(60) {
+                            d["ret"] = if rng.chance(50) { sv(*rng.pick(RICH_TYPES)) } else { ty(&mut rng) };
+                        }
+                        if d["k"] == "fn" {
+                            d["body"] = json!((0..rng.below(5)).map(|_| rng.pick(STMTS).to_string()).collect::<Vec<_>>());
+                            if d["ret"].as_array().map(|a| !a.is_empty()).unwrap_or(false) {
+                                d["res"] = sv(*rng.pick(RICH_VALUES));
+                            }
+                        }
+                    }
+                    3 => {
+                        d["k"] = json!("struct");
+                        d["ext"] = json!(rng.chance(15));
+                        let nm = *rng.pick(&[0usize, 1, 2, 30, 255, 256, 257]);
+                        d["mem"] = json!((0..nm).map(|j| json!([format!("m{j}"), if rng.chance(30) { sv(*rng.pick(RICH_TYPES)) } else { ty(&mut rng) }])).collect::<Vec<_>>());
+                    }
+                    _ => {
+                        d["k"] = json!("word");
+                        d["size"] = json!(*rng.pick(&[1u64, 2, 4, 8, 16]));
+                        d["mem"] = pairs(&mut rng, 6, "m");
+                    }
+                }
+                decls.push(d);
+            }
+        }
+        "bigheader" => {
+            big = true;
+            // `pub const d7: i32 = x;` is 8 tokens and 10 nodes
+            let hidden_pct = *rng.pick(&[0usize, 3, 10]);
+            for i in 0..7000 {
+                let mut d = dflt(&format!("d{i}"));
+                d["k"] = json!("const");
+                d["pub"] = json!(!rng.chance(hidden_pct));
+                d["ty"] = sv(&["i32"]);
+                d["val"] = sv(if i % 3 == 0 { &["+", "x", "y"] } else { &["x"] });
+                decls.push(d);
+            }
+            // the last declarations own lists (List.first / ListItem.next beyond 2^16 in the header)
+            decls.push(small_decl(&mut rng, 3, "tail_struct", true));
+            decls.push(small_decl(&mut rng, 1, "tail_head", true));
+        }
+        "flags" => {
+            // all combinations, in a seeded order, each followed now and then by a plain declaration of the other visibility
+            let mut combos: Vec<(usize, bool, bool, bool)> = Vec::new();
+            for kind in 0..5 {
+                for p in [false, true] {
+                    for e in [false, true] {
+                        combos.push((kind, p, e, false));
+                        if kind == 3 {
+                            combos.push((kind, p, e, true));
+                        }
+                    }
+                }
+            }
+            for k in (1..combos.len()).rev() {
+                let j = rng.below(k + 1);
+                combos.swap(k, j);
+            }
+            for (i, (kind, p, e, o)) in combos.into_iter().enumerate() {
+                let mut d = small_decl(&mut rng, kind, &format!("d{i}"), p);
+                d["ext"] = json!(e);
+                if o {
+                    d["opq"] = json!(true);
+                    d["mem"] = json!([]);
+                }
+                decls.push(d);
+                if rng.chance(25) {
+                    decls.push(small_decl(&mut rng, 5, &format!("lib{i}"), false));
+                }
+            }
+        }
+        _ => {
+            // refstmts
+            let n = rng.range(3, 12);
+            for i in 0..n {
+                let p = rng.chance(50);
+                if rng.chance(60) {
+                    let stmts = rng.range(1, 40);
+                    decls.push(huge_fn(&mut rng, &format!("d{i}"), p, stmts, true));
+                } else {
+                    let kind = *rng.pick(&[1usize, 2, 3]);
+                    decls.push(small_decl(&mut rng, kind, &format!("d{i}"), p));
+                }
+            }
+        }
+    }
+    (decls, class, big)
 }
